@@ -15,12 +15,14 @@
 (*           intervals (or none = whole series) or by two requests with    *)
 (*           one interval each; matcher a="1".                             *)
 (*  "labels" <= 2 series with labels a in {absent,"1","2"}, b in           *)
-(*           {absent,"1"} (distinct label sets), fixed layout <<1,2>>,<<4>>;*)
+(*           {absent,"1"} (distinct label sets, unordered), layout          *)
+(*           <<1,2>>,<<4>>;                                                 *)
 (*           <= 2 requests with 1..2 matchers from MatcherPool, each with  *)
 (*           no interval or [2,2] or [0,1],[4,4].                          *)
 (***************************************************************************)
 EXTENDS Rewrite, TLC, Json, IOUtils, FiniteSetsExt
-CONSTANTS Family, G, LTwo      \* LTwo: the labels family includes two-series blocks and two-request lists
+CONSTANTS Family, G, LTwo,     \* LTwo: the labels family includes two-series blocks and two-request lists
+          EmitTwoRequests  \* leg B also gets the inputs of the time family that have two requests
 
 Val(i, t) == 1000 * i + t
 MkChunks(i, tss) == [c \in DOMAIN tss |-> [k \in DOMAIN tss[c] |-> [t |-> tss[c][k], v |-> Val(i, tss[c][k])]]]
@@ -47,7 +49,8 @@ MatcherPool == { M("a", "EQ", <<"1">>), M("a", "NEQ", <<"1">>), M("a", "EQ", <<"
                  M("a", "NRE", <<"2">>), M("b", "EQ", <<"1">>), M("b", "NEQ", <<"1">>) }
 LabelChoices == { (IF a = "" THEN <<>> ELSE << [n |-> "a", v |-> a] >>) \o (IF b = "" THEN <<>> ELSE << [n |-> "b", v |-> b] >>)
                   : a \in {"", "1", "2"}, b \in {"", "1"} }
-LSeries == { <<x>> : x \in LabelChoices } \cup IF ~LTwo THEN {} ELSE ({ <<x, y>> : x \in LabelChoices, y \in LabelChoices } \ { <<x, x>> : x \in LabelChoices })
+LabelSeq == SetToSeq(LabelChoices)
+LSeries == { <<x>> : x \in LabelChoices } \cup IF ~LTwo THEN {} ELSE UNION { { <<LabelSeq[i], LabelSeq[j]>> : j \in { k \in DOMAIN LabelSeq : k > i } } : i \in DOMAIN LabelSeq }
 LIvs == { <<>>, << [lo |-> 2, hi |-> 2] >>, << [lo |-> 0, hi |-> 1], [lo |-> 4, hi |-> 4] >> }
 LMatchers == { <<m>> : m \in MatcherPool } \cup { <<m1, m2>> : m1 \in MatcherPool, m2 \in MatcherPool }
 LReqs == { Req(ms, iv) : ms \in LMatchers, iv \in LIvs }
@@ -107,5 +110,5 @@ Progress == [][pc' = pc => (si' > si \/ ci' > ci \/ pc = "done")]_vars
 
 (* ---- leg B ---- *)
 CasesFile == IF "VERIF_CASES" \in DOMAIN IOEnv THEN IOEnv.VERIF_CASES ELSE "cases.ndjson"
-ASSUME ndJsonSerialize(CasesFile, SetToSeq(AbstractInputs))
+ASSUME ndJsonSerialize(CasesFile, SetToSeq({ x \in AbstractInputs : EmitTwoRequests \/ Family # "time" \/ Len(x.reqs) = 1 }))
 =============================================================================
